@@ -1,3 +1,448 @@
 package absnfs
 
-// vf_core2.go: additional generator profiles of the core driver (see vf_core.go).
+// vf_core2.go: additional generator profiles of the core driver (see vf_core.go):
+//   maxfs  (C25)  MaxFileSize set at construction or at run time, requests around the limit
+//   own    (C11)  arbitrary credentials x squash modes x sattr3 uid/gid in SETATTR/CREATE/MKDIR/SYMLINK
+//   ro     (C08)  read-only exports (construction or switched at run time), every procedure,
+//                 well-formed / truncated / garbage arguments, arbitrary credentials
+//   crash  (C22)  WRITE/COMMIT histories re-run with a crash at every backend operation
+
+import (
+	"fmt"
+	"math/rand"
+	"os"
+	"testing"
+)
+
+// cfgLine records a run-time configuration change (the tree must not change).
+func (c *vfcClient) cfgLine() {
+	c.flush()
+	c.tr.Emit(M{"ev": "cfg", "cfg": c.cfg, "tree": c.tree()})
+}
+
+func (c *vfcClient) setPolicy(t testing.TB, f func(p *PolicyOptions)) {
+	p := *c.env.n.policy.Load()
+	f(&p)
+	if err := c.env.n.UpdatePolicyOptions(p); err != nil {
+		t.Fatalf("UpdatePolicyOptions: %v", err)
+	}
+}
+
+// ---------------------------------------------------------------- maxfs (C25)
+
+func (c *vfcClient) maxfsStep(r *rand.Rand) {
+	L := c.cfg.MaxFS
+	if L <= 0 {
+		L = 8
+	}
+	f := c.pickKind(r, "F")
+	near := []int{0, 1, L - 1, L, L + 1, L / 2}
+	pos := func() uint64 {
+		v := near[r.Intn(len(near))]
+		if v < 0 {
+			v = 0
+		}
+		return uint64(v)
+	}
+	switch x := r.Intn(100); {
+	case x < 55:
+		c.write(f, "small", pos(), vfcData(r, int(pos())%40), 2)
+	case x < 85:
+		c.setattr(f, vfSattr{Size: u64p(pos())})
+	case x < 95:
+		c.read(f, "small", pos(), uint32(L+2))
+	default:
+		c.getattr(f)
+	}
+}
+
+func vfcRunMaxfs(t *testing.T, tr *vfTrace, h int, seed int64, steps int) *vfcClient {
+	r := vfRand(seed, fmt.Sprintf("core-maxfs-%d", h))
+	limits := []int{1, 5, 10, 33}
+	L := limits[h%len(limits)]
+	atStart := h%2 == 0
+	cfg := vfcCfg{TTL: []string{"min", "def"}[(h/2)%2], Profile: "maxfs"}
+	if atStart {
+		cfg.MaxFS = L
+	}
+	c := vfcNewClient(t, tr, cfg, h, seed)
+	root := c.hs[0]
+	c.create(root, "a", 0, vfSattr{Mode: u32p(0644)}, "")
+	c.create(root, "b", 0, vfSattr{Mode: u32p(0644)}, "")
+	for s := 0; s < steps; s++ {
+		if !atStart && s == steps/3 {
+			// the limit is switched on at run time
+			c.cfg.MaxFS = L
+			c.setPolicy(t, func(p *PolicyOptions) { p.MaxFileSize = int64(L) })
+			c.cfgLine()
+		}
+		if !atStart && s == 2*steps/3 && h%4 == 1 {
+			// ... and changed again
+			c.cfg.MaxFS = L + 7
+			c.setPolicy(t, func(p *PolicyOptions) { p.MaxFileSize = int64(L + 7) })
+			c.cfgLine()
+		}
+		c.maxfsStep(r)
+	}
+	return c
+}
+
+// ---------------------------------------------------------------- own (C11)
+
+var vfcUIDs = []uint32{0, 1000, 65534, 7}
+var vfcGIDs = []uint32{0, 1000, 100, 65534}
+
+func (c *vfcClient) setCred(uid, gid uint32) {
+	c.cred = vfCred{Flavor: AUTH_SYS, UID: uid, GID: gid, IP: "127.0.0.1", Port: 1000}
+}
+
+func (c *vfcClient) ownSattr(r *rand.Rand) vfSattr {
+	s := vfSattr{}
+	if r.Intn(2) == 0 {
+		s.Mode = u32p([]uint32{0644, 0600, 0755}[r.Intn(3)])
+	}
+	switch r.Intn(4) {
+	case 0:
+		s.UID = u32p(vfcUIDs[r.Intn(len(vfcUIDs))])
+		s.GID = u32p(vfcGIDs[r.Intn(len(vfcGIDs))])
+	case 1:
+		s.UID = u32p(vfcUIDs[r.Intn(len(vfcUIDs))])
+	case 2:
+		s.GID = u32p(vfcGIDs[r.Intn(len(vfcGIDs))])
+	}
+	return s
+}
+
+func vfcRunOwn(t *testing.T, tr *vfTrace, h int, seed int64, steps int) *vfcClient {
+	r := vfRand(seed, fmt.Sprintf("core-own-%d", h))
+	squash := []string{"none", "root", "all", ""}[h%4]
+	cfg := vfcCfg{TTL: []string{"min", "def"}[(h/4)%2], Squash: squash, Profile: "own"}
+	c := vfcNewClient(t, tr, cfg, h, seed)
+	names := 0
+	for s := 0; s < steps; s++ {
+		c.setCred(vfcUIDs[r.Intn(len(vfcUIDs))], vfcGIDs[r.Intn(len(vfcGIDs))])
+		d := c.pickKind(r, "D")
+		names++
+		name := fmt.Sprintf("n%d", names)
+		switch x := r.Intn(100); {
+		case x < 22:
+			c.create(d, name, uint32(r.Intn(3)), c.ownSattr(r), "v1")
+		case x < 44:
+			c.mkdir(d, name, c.ownSattr(r))
+		case x < 60:
+			c.symlink(d, name, "a", c.ownSattr(r))
+		case x < 90:
+			s := c.ownSattr(r)
+			// an effective root sets both ids or none (the handler chowns with the ids cached in
+			// the handle for the unset one, which is outside this property)
+			if (s.UID == nil) != (s.GID == nil) {
+				s.UID, s.GID = u32p(vfcUIDs[r.Intn(len(vfcUIDs))]), u32p(vfcGIDs[r.Intn(len(vfcGIDs))])
+			}
+			c.setattr(c.pick(r), s)
+		default:
+			c.getattr(c.pick(r))
+		}
+	}
+	c.cred = vfRoot
+	return c
+}
+
+// ---------------------------------------------------------------- ro (C08)
+
+// vfcMangle truncates or garbles well-formed arguments.
+func vfcMangle(r *rand.Rand, args []byte) ([]byte, string) {
+	switch r.Intn(4) {
+	case 0:
+		if len(args) >= 4 {
+			cut := 4 * r.Intn(len(args)/4)
+			return args[:cut], "trunc"
+		}
+	case 1:
+		g := make([]byte, r.Intn(40))
+		r.Read(g)
+		return g, "garbage"
+	case 2:
+		if len(args) > 0 {
+			b := append([]byte{}, args...)
+			b[r.Intn(len(b))] ^= byte(1 << uint(r.Intn(8)))
+			return b, "flip"
+		}
+	}
+	return args, "ok"
+}
+
+func (c *vfcClient) roStep(r *rand.Rand) {
+	h := c.pick(r)
+	d := c.pickKind(r, "D")
+	p, dp := c.hp[h], c.hp[d]
+	name := []string{"a", "b", "c", "new", "x"}[r.Intn(5)]
+	procs := []uint32{0, 1, 2, 3, 4, 5, 6, 7, 8, 9, 10, 11, 12, 13, 14, 15, 16, 17, 18, 19, 20, 21}
+	// mutating procedures are over-represented
+	mut := []uint32{2, 7, 8, 9, 10, 11, 12, 13, 14, 15, 21}
+	proc := procs[r.Intn(len(procs))]
+	if r.Intn(2) == 0 {
+		proc = mut[r.Intn(len(mut))]
+	}
+	var args []byte
+	meta := M{"h": p}
+	roles := map[string][]string{}
+	switch proc {
+	case NFSPROC3_NULL:
+		args = []byte{}
+	case NFSPROC3_GETATTR, NFSPROC3_READLINK, NFSPROC3_FSSTAT, NFSPROC3_FSINFO, NFSPROC3_PATHCONF:
+		args = vfArgsFH(h)
+	case NFSPROC3_SETATTR:
+		s := vfcSattr(r)
+		if r.Intn(2) == 0 {
+			s.Size = u64p(uint64(r.Intn(9)))
+		}
+		args = vfArgsSetattr(h, s, nil)
+		c.sattrMeta(meta, s)
+	case NFSPROC3_LOOKUP:
+		args = vfArgsDirOp(d, name)
+		meta = M{"h": dp, "name": name, "ncls": vfcNameClass(name)}
+	case NFSPROC3_ACCESS:
+		mask := uint32(r.Intn(64))
+		args = vfArgsAccess(h, mask)
+		meta["mask"] = int(mask)
+	case NFSPROC3_READ:
+		args = vfArgsRead(h, uint64(r.Intn(8)), uint32(r.Intn(16)))
+		meta["off"], meta["cnt"] = 0, 0
+	case NFSPROC3_WRITE:
+		data := vfcData(r, r.Intn(8))
+		args = vfArgsWrite(h, uint64(r.Intn(8)), uint32(r.Intn(3)), data)
+	case NFSPROC3_CREATE:
+		args = vfArgsCreate(d, name, uint32(r.Intn(3)), vfcSattr(r), [8]byte{1})
+		meta = M{"h": dp, "name": name, "ncls": vfcNameClass(name)}
+	case NFSPROC3_MKDIR:
+		args = vfArgsMkdir(d, name, vfcSattr(r))
+		meta = M{"h": dp, "name": name, "ncls": vfcNameClass(name)}
+	case NFSPROC3_SYMLINK:
+		args = vfArgsSymlink(d, name, vfSattr{}, "a")
+		meta = M{"h": dp, "name": name, "ncls": vfcNameClass(name)}
+	case NFSPROC3_MKNOD:
+		args = vfArgsMknod(d, name, 4)
+		meta = M{"h": dp, "name": name, "ncls": vfcNameClass(name)}
+	case NFSPROC3_REMOVE, NFSPROC3_RMDIR:
+		args = vfArgsDirOp(d, name)
+		meta = M{"h": dp, "name": name, "ncls": vfcNameClass(name)}
+	case NFSPROC3_RENAME:
+		d2 := c.pickKind(r, "D")
+		args = vfArgsRename(d, name, d2, "y")
+		meta = M{"h": dp, "name": name, "ncls": vfcNameClass(name), "h2": c.hp[d2], "name2": "y", "ncls2": "ok"}
+	case NFSPROC3_LINK:
+		args = vfArgsLink(h, d, name)
+	case NFSPROC3_READDIR:
+		args = vfArgsReaddir(d, 0, [8]byte{}, 4096)
+		meta = M{"h": dp}
+	case NFSPROC3_READDIRPLUS:
+		args = vfArgsReaddirplus(d, 0, [8]byte{}, 4096, 8192)
+		meta = M{"h": dp}
+	case NFSPROC3_COMMIT:
+		args = vfArgsCommit(h, 0, 0)
+	}
+	args, how := vfcMangle(r, args)
+	// this profile only states the read-only clauses (and "a failed request changes nothing"):
+	// the line is marked so that the POSIX outcome rules are not applied to possibly malformed calls
+	meta["rocheck"] = true
+	meta["mangle"] = how
+	// arbitrary credentials
+	switch r.Intn(4) {
+	case 0:
+		c.cred = vfRoot
+	case 1:
+		c.setCred(1000, 1000)
+	case 2:
+		c.cred = vfCred{Flavor: AUTH_NONE, IP: "127.0.0.1", Port: 1000}
+	case 3:
+		c.setCred(0, 0)
+	}
+	rep := c.req(proc, args, meta, roles)
+	// ACCESS bits as booleans (TLC has no bit operations)
+	if proc == NFSPROC3_ACCESS && rep.OK() {
+		a := vfU(vfGet(rep.Res.Val, "access"))
+		c.pending["acc_mod"], c.pending["acc_ext"], c.pending["acc_del"] = a&ACCESS3_MODIFY != 0, a&ACCESS3_EXTEND != 0, a&ACCESS3_DELETE != 0
+	}
+	c.cred = vfRoot
+}
+
+func vfcRunRO(t *testing.T, tr *vfTrace, h int, seed int64, steps int) *vfcClient {
+	r := vfRand(seed, fmt.Sprintf("core-ro-%d", h))
+	atStart := h%3 == 0
+	cfg := vfcCfg{TTL: []string{"min", "def"}[h%2], RO: atStart, Profile: "ro", Neg: h%4 == 1, Dir: h%4 == 2}
+	// the tree exists before the export does (a read-only export cannot create it)
+	fs := vfNewFS()
+	fs.vfPoke("/a", "D", nil, "", 0755)
+	fs.vfPoke("/a/b", "F", []byte("data-ab"), "", 0644)
+	fs.vfPoke("/b", "F", []byte("data-b"), "", 0644)
+	fs.vfPoke("/c", "L", nil, "b", 0777)
+	fs.vfPoke("/a/c", "D", nil, "", 0755)
+	c := vfcNewClientOn(t, tr, cfg, h, seed, fs)
+	root := c.hs[0]
+	// collect handles (read-only requests)
+	c.readdir(root, true)
+	for _, hh := range append([]uint64{}, c.hs...) {
+		if len(c.hp[hh]) == 1 && c.hp[hh][0] == "a" {
+			c.readdir(hh, true)
+		}
+	}
+	for s := 0; s < steps; s++ {
+		if !atStart && (s == steps/4 || s == steps/2 || s == 3*steps/4) {
+			// switched at run time, through either API
+			c.cfg.RO = !c.cfg.RO
+			if s == steps/2 {
+				o := c.env.n.GetExportOptions()
+				o.ReadOnly = c.cfg.RO
+				if err := c.env.n.UpdateExportOptions(o); err != nil {
+					t.Fatalf("UpdateExportOptions: %v", err)
+				}
+			} else {
+				c.setPolicy(t, func(p *PolicyOptions) { p.ReadOnly = c.cfg.RO })
+			}
+			c.cfgLine()
+		}
+		c.roStep(r)
+	}
+	return c
+}
+
+// ---------------------------------------------------------------- crash (C22)
+
+type vfcCrashOp struct {
+	kind   int // 0 write, 1 commit
+	file   int
+	off    uint64
+	data   []byte
+	stable uint32
+}
+
+func vfcCrashHistory(r *rand.Rand) []vfcCrashOp {
+	n := 2 + r.Intn(4)
+	var ops []vfcCrashOp
+	for i := 0; i < n; i++ {
+		if r.Intn(5) == 0 {
+			ops = append(ops, vfcCrashOp{kind: 1, file: r.Intn(2)})
+		} else {
+			ops = append(ops, vfcCrashOp{kind: 0, file: r.Intn(2), off: uint64(r.Intn(10)), data: vfcData(r, 1+r.Intn(6)), stable: uint32(r.Intn(3))})
+		}
+	}
+	ops = append(ops, vfcCrashOp{kind: 1, file: 0})
+	return ops
+}
+
+// vfcRunCrash runs one history with a crash injected at backend operation k (0 = none);
+// returns the number of countable backend operations the history needed.
+func vfcRunCrash(t *testing.T, tr *vfTrace, h int, seed int64, ops []vfcCrashOp, k int64) int64 {
+	cfg := vfcCfg{TTL: "min", Profile: "crash"}
+	fs := vfNewFS()
+	fs.vfPoke("/f0", "F", []byte{9, 9, 9}, "", 0644)
+	fs.vfPoke("/f1", "F", []byte{}, "", 0644)
+	c := vfcNewClientOn(t, tr, cfg, h, seed, fs)
+	root := c.hs[0]
+	c.lookup(root, "f0")
+	c.lookup(root, "f1")
+	files := []uint64{}
+	for _, name := range []string{"f0", "f1"} {
+		for _, hh := range c.hs {
+			if len(c.hp[hh]) == 1 && c.hp[hh][0] == name {
+				files = append(files, hh)
+			}
+		}
+	}
+	if len(files) != 2 {
+		t.Fatalf("crash profile: handles missing")
+	}
+	fs.SetCrashAt(k)
+	for _, op := range ops {
+		if op.kind == 0 {
+			c.write(files[op.file], "small", op.off, op.data, op.stable)
+		} else {
+			c.commit(files[op.file])
+		}
+		if fs.crashedNow() {
+			// the injected fault hit this request: its outcome is not constrained by the POSIX rules
+			c.pending["faulty"] = true
+			break
+		}
+	}
+	n := fs.OpCount()
+	c.flush()
+	// what survives: the durable copies
+	if !fs.crashedNow() {
+		fs.Crash() // a crash after the last reply
+	}
+	dur := []M{}
+	for _, name := range []string{"f0", "f1"} {
+		_, d, _, _, ok := fs.vfPeek("/"+name, 200)
+		ints := []int{}
+		for _, b := range d {
+			ints = append(ints, int(b))
+		}
+		if ok {
+			dur = append(dur, M{"p": []string{name}, "d": ints})
+		}
+	}
+	tr.Emit(M{"ev": "crash", "at": int(k), "dur": dur})
+	c.env.Close()
+	return n
+}
+
+func (f *vfsFS) crashedNow() bool {
+	f.mu.Lock()
+	defer f.mu.Unlock()
+	return f.crashed
+}
+
+// ---------------------------------------------------------------- entry point
+
+// TestVF_Core2 writes core_<profile>.ndjson for VF_PROFILE in {maxfs, own, ro, crash}.
+func TestVF_Core2(t *testing.T) {
+	seed := vfSeed()
+	profile := os.Getenv("VF_PROFILE")
+	nh := vfEnvInt("VF_HIST", 32)
+	steps := vfEnvInt("VF_STEPS", 30)
+	tr := vfNewTrace(t, "core_"+profile+".ndjson")
+	defer tr.Close()
+	nontrivial := 0
+	var samples []M
+	hists := 0
+	for h := 0; h < nh; h++ {
+		switch profile {
+		case "maxfs", "own", "ro":
+			var c *vfcClient
+			switch profile {
+			case "maxfs":
+				c = vfcRunMaxfs(t, tr, h, seed, steps)
+			case "own":
+				c = vfcRunOwn(t, tr, h, seed, steps)
+			default:
+				c = vfcRunRO(t, tr, h, seed, steps)
+			}
+			c.flush()
+			c.env.Close()
+			hists++
+			if c.muts >= 3 || profile == "ro" {
+				nontrivial++
+			}
+			if h < 1 {
+				samples = append(samples, M{"cfg": c.cfg, "requests": c.n})
+			}
+		case "crash":
+			r := vfRand(seed, fmt.Sprintf("core-crash-%d", h))
+			ops := vfcCrashHistory(r)
+			n := vfcRunCrash(t, tr, h, seed, ops, 0)
+			hists++
+			for k := int64(1); k <= n; k++ {
+				vfcRunCrash(t, tr, h, seed, ops, k)
+				hists++
+				nontrivial++
+			}
+			if h < 1 {
+				samples = append(samples, M{"ops": len(ops), "crash_points": n})
+			}
+		default:
+			t.Fatalf("unknown profile %q", profile)
+		}
+	}
+	vfWriteJSON(t, "core_"+profile+".summary.json", M{"histories": hists, "steps": steps, "nontrivial": nontrivial, "lines": tr.n, "samples": samples, "profile": profile})
+}
